@@ -302,25 +302,35 @@ func ruleConstDedup(p *Program, r *Reporter) {
 	// the loop over existing constants with an early return of the index
 	var cond ast.Expr
 	n := 0
-	ast.Inspect(fd.Body, func(nd ast.Node) bool {
-		rs, ok := nd.(*ast.RangeStmt)
-		if !ok {
-			return true
+	// the search may sit in the pool function itself or in a function it calls
+	// for the lookup
+	bodies := []*ast.BlockStmt{fd.Body}
+	for _, g := range staticCalleesWithin(p, a.addConstant, 1) {
+		if gd := p.FuncDecl(g); gd != nil && gd.Body != nil && fnPkg(g) != nil && fnPkg(g).Pkg.Path() == Mod {
+			bodies = append(bodies, gd.Body)
 		}
-		for _, st := range rs.Body.List {
-			iff, ok := st.(*ast.IfStmt)
+	}
+	for _, body := range bodies {
+		ast.Inspect(body, func(nd ast.Node) bool {
+			rs, ok := nd.(*ast.RangeStmt)
 			if !ok {
-				continue
+				return true
 			}
-			for _, b := range iff.Body.List {
-				if _, isRet := b.(*ast.ReturnStmt); isRet {
-					cond = iff.Cond
-					n++
+			for _, st := range rs.Body.List {
+				iff, ok := st.(*ast.IfStmt)
+				if !ok {
+					continue
+				}
+				for _, b := range iff.Body.List {
+					if _, isRet := b.(*ast.ReturnStmt); isRet {
+						cond = iff.Cond
+						n++
+					}
 				}
 			}
-		}
-		return true
-	})
+			return true
+		})
+	}
 	key := "constants are merged only on equal type and equal printed form"
 	if n == 0 {
 		// a return that is not preceded by the append hands out the index of
